@@ -619,6 +619,28 @@ def span_shape(run):
                   "Report::message no longer wraps messages in the parent stack: inner errors lose the instruction/data element that caused them")
 
 
+def field_span_rule(run, R="SPAN"):
+    """`#bankdef { name = value }`-style field lists: a field is located at its own name token (the span stored with the field is
+    the span of the token its name was read from), not at a span accumulated over the block"""
+    from rules_sym import deep
+    f = run.anchor(R, "asm::parser::fields::parse")
+    if f is None:
+        return
+    n, bad = 0, []
+    for bi, si, st in f.stmts():
+        if st["k"] == "assign" and st["rv"]["k"] == "agg" and str(st["rv"].get("adt", "")).endswith("fields::AstField"):
+            flds = st["rv"].get("fields") or []
+            if "span" not in flds or "name" not in flds:
+                continue
+            n += 1
+            sp = deep(f, st["rv"]["ops"][flds.index("span")], 6)
+            nm = deep(f, st["rv"]["ops"][flds.index("name")], 8)
+            if not (sp.endswith(".span") and "Span::join(" not in sp and (sp + ")") in nm or ("(%s)" % sp) in nm or (", %s)" % sp) in nm):
+                bad.append("span `%s`, name from `%s`" % (sp[:80], nm[:80]))
+    run.check(n >= 1 and not bad, R, R + "|field|own-token", f.loc(), "a field's span is the span of its own name token (%d site(s))" % n,
+              "fields::parse stores a field with a span that is not its own name token (%s): an unknown or duplicate field would be reported on another line of the block" % ("; ".join(bad) or "no AstField built"))
+
+
 def src_bind(run):
     """line/column and excerpts are computed against the text of the file the span names: in diagn::report every
     CharCounter is built from fileserver.get_str*(<that span's file_handle>)"""
@@ -703,11 +725,13 @@ def line_column_counts(run, R="UNIT"):
         run.violation(R, R + "|line-column|anchor", "-", "mechanism not found: CharCounter::get_line_column_at_index")
         return
     f = fs[0]
-    adds = [(deep(f, st["rv"]["l"], 4), deep(f, st["rv"]["r"], 4)) for bi, si, st in f.stmts()
+    # the function and the closures it hands to iterator adapters (fold / take_while ...)
+    body = [f] + [g for g in run.prog.real_fns() if g.kind == "Closure" and g.id.startswith(f.id + "::{closure")]
+    adds = [(deep(g, st["rv"]["l"], 4), deep(g, st["rv"]["r"], 4)) for g in body for bi, si, st in g.stmts()
             if st["k"] == "assign" and st["rv"]["k"] == "binop" and st["rv"]["op"] in ("Add", "AddWithOverflow", "Sub", "SubWithOverflow", "Mul", "MulWithOverflow")]
     walks = any((t.get("callee") or "").endswith("<impl str>::char_indices") or (t.get("callee") or "").endswith("<impl str>::chars") for _, t in f.calls())
-    other_calls = sorted(set((t.get("callee") or "?").rsplit("::", 1)[-1] for _, t in f.calls() if re.search(r"len_utf(8|16)|encode_utf|width", t.get("callee") or "")))
-    ok = walks and len(adds) == 2 and all(r == "1_usize" and l.startswith("var") for l, r in adds) and not other_calls
+    other_calls = sorted(set((t.get("callee") or "?").rsplit("::", 1)[-1] for g in body for _, t in g.calls() if re.search(r"len_utf(8|16)|encode_utf|width", t.get("callee") or "")))
+    ok = walks and len(adds) == 2 and all(r == "1_usize" for l, r in adds) and not other_calls
     run.check(ok, R, R + "|line-column|counts-characters", f.loc(), "line and column are counted one per line / one per character over char_indices",
               "get_line_column_at_index does not count one per character (arithmetic: %s; encoded-length calls: %s): the column printed after a multi-byte character would not be the 1-based character column" % (adds, other_calls))
 
@@ -729,3 +753,64 @@ def walker_text(run, R="SRC"):
         why = "the walker reads `%s` for file `%s` from offset `%s`" % (text[:120], handle[:60], off)
     run.check(ok, R, R + "|walker-text", f.loc(), "the source walker reads the stored text of its own file handle, unchanged, from offset 0",
               "parse_and_resolve_includes: %s: spans would be byte offsets into a text that is not the stored file, so every line/column and excerpt after the first difference is off" % why)
+
+
+def expr_node_spans(run, R="SPAN"):
+    """sibling agreement of the expression parser: the span of a composite node starts where its source text starts -- it joins the
+    span of the operand that was parsed first (the leftmost one), or of a token that was consumed before that operand"""
+    from rules_sym import deep
+    from mir import peel
+    n, bad = 0, []
+    for f in run.prog.real_fns():
+        if not f.id.startswith("expr::parser::"):
+            continue
+        for bi, si, st in f.stmts():
+            if st["k"] != "assign" or st["rv"]["k"] != "agg" or not str(st["rv"].get("adt", "")).endswith("expression::Expr"):
+                continue
+            ops = st["rv"]["ops"]
+            kids = []
+            for o in ops[1:]:
+                l = op_local(o)
+                if l is None or not (f.local_ty(l) or "").startswith("std::boxed::Box<expr::expression::Expr"):
+                    continue
+                src = peel(f.origin_op(o))
+                if src and src[0] == "call" and (src[1].get("callee") or "").endswith("Box::<T>::new") and src[1]["args"]:
+                    inner = src[1]["args"][0]
+                    # where the child was produced: the defining call of its root local
+                    il = op_local(inner)
+                    root = f.copy_root(il) if il is not None else None
+                    blocks = [d[1] for d in f.full_defs(root)] if root is not None else []
+                    o2 = f.origin_op(inner)
+                    hops = 0
+                    while o2 and o2[0] in ("place", "ref", "cast") and hops < 6:
+                        o2 = o2[1]
+                        hops += 1
+                    if o2 and o2[0] == "call":
+                        blocks = [o2[2]]
+                        if (o2[1].get("callee") or "") == "std::ops::Try::branch" and o2[1]["args"]:
+                            o3 = peel(f.origin_op(o2[1]["args"][0]))
+                            if o3 and o3[0] == "call":
+                                blocks = [o3[2]]
+                    kids.append((deep(f, inner, 6), blocks))
+            if not kids or not all(b for _, b in kids):
+                continue
+            n += 1
+            sp = deep(f, ops[0], 7)
+            first = None
+            for d, bl in kids:
+                if all(any(f.dominates(b1, b2) for b1 in bl for b2 in bl2) for d2, bl2 in kids if d2 != d):
+                    first = (d, bl)
+            if first is None:
+                first = kids[0]
+            mentions_first = ("Expr::span(%s)" % first[0]) in sp or ("Expr::span(%s" % first[0][:60]) in sp
+            # or a token consumed before the first operand
+            tok_before = False
+            for b2, t2 in f.calls():
+                if re.search(r"Walker(::<.*>)?::(expect|maybe_expect)$", t2.get("resolved") or t2.get("callee") or "") and any(f.dominates(b2, b) and b2 != b for b in first[1]):
+                    dtk = deep(f, {"copy": t2["dest"]}, 4)
+                    if dtk and dtk in sp:
+                        tok_before = True
+            if not (mentions_first or tok_before):
+                bad.append("%s %s: span `%s` leaves out its first operand `%s`" % (f.loc(st["span"]), st["rv"].get("variant"), sp[:90], first[0][:60]))
+    run.check(n >= 6 and not bad, R, R + "|expr-node|covers-first-operand", "-", "the span of every composite expression node starts at its first operand or at a token before it (%d node constructions)" % n,
+              "%s: a diagnostic or a listing row for this expression would show only its tail" % ("; ".join(bad) or "node constructions not found"))
